@@ -50,6 +50,12 @@ func prewriteMutation(db *NoKV.DB, reader *Reader, req *pb.PrewriteRequest, mut 
 	if lock != nil && lock.Ts != req.StartVersion {
 		return keyErrorLocked(key, lock)
 	}
+	if lock != nil {
+		// A repeated prewrite of this transaction: the key is already prewritten. The
+		// lock must not be rebuilt from the request, its minimum commit timestamp may
+		// have been pushed by a reader since.
+		return nil
+	}
 	if write, commitTs, err := reader.MostRecentWrite(key); err != nil {
 		return keyErrorRetryable(err)
 	} else if write != nil && commitTs >= req.StartVersion {
